@@ -8,9 +8,31 @@ from extract import Unsupported, regex_class, lean_chars, find_function
 NAME = "Tables"
 
 
-def _str_const(node):
+def _named_literals(tree, name):
+    """string literals bound to `name` by a plain assignment at module or class level"""
+    found = []
+    for scope in [tree] + [n for n in ast.walk(tree) if isinstance(n, ast.ClassDef)]:
+        for st in scope.body:
+            if isinstance(st, ast.Assign) and len(st.targets) == 1 and isinstance(st.targets[0], ast.Name) \
+                    and st.targets[0].id == name and isinstance(st.value, ast.Constant) and isinstance(st.value.value, str):
+                found.append(st.value.value)
+    return found
+
+
+def _str_const(node, tree=None):
+    """a string literal, or a name / `self.X` / `Class.X` bound exactly once (module or class level) to one"""
     if isinstance(node, ast.Constant) and isinstance(node.value, str):
         return node.value
+    if tree is not None:
+        name = node.id if isinstance(node, ast.Name) else (node.attr if isinstance(node, ast.Attribute) else None)
+        if name is not None:
+            found = _named_literals(tree, name)
+            # the name must not be re-bound anywhere else (attribute assignment, augmented assignment, second binding)
+            rebound = [n for n in ast.walk(tree) if isinstance(n, (ast.Assign, ast.AugAssign, ast.AnnAssign))
+                       for t in (n.targets if isinstance(n, ast.Assign) else [n.target])
+                       if (isinstance(t, ast.Attribute) and t.attr == name)]
+            if len(found) == 1 and not rebound:
+                return found[0]
     raise Unsupported("expected a string literal, got %s" % ast.dump(node)[:80])
 
 
@@ -25,7 +47,7 @@ def generate(repo):
     defaults = dict(zip(names[len(names) - len(esc.args.defaults):], esc.args.defaults))
     if "protect_regex" not in defaults:
         raise Unsupported("escape_nexus_token has no protect_regex default")
-    protect_default = regex_class(_str_const(defaults["protect_regex"]))
+    protect_default = regex_class(_str_const(defaults["protect_regex"], np_tree))
     # override handed over by NewickWriter._render_node_tag (absent => the default applies)
     rnt = find_function(nw_tree, "NewickWriter._render_node_tag")
     protect_newick = None
@@ -33,7 +55,7 @@ def generate(repo):
         if isinstance(n, ast.Call) and getattr(n.func, "attr", getattr(n.func, "id", None)) == "escape_nexus_token":
             for kw in n.keywords:
                 if kw.arg == "protect_regex":
-                    protect_newick = regex_class(_str_const(kw.value))
+                    protect_newick = regex_class(_str_const(kw.value, nw_tree))
     if protect_newick is None:
         protect_newick = protect_default
     # NexusTokenizer.__init__ -> Tokenizer.__init__(uncaptured_delimiters=..., ...)
